@@ -6,7 +6,9 @@ from fjverif.runner import Ok, Violation, Discard
 
 ID = 'C07'
 LEVEL = 'exploration'
-RULE = ('cases = execution-guided images (sparse layouts favoured: page edges, flat-window edge, 2^20..2^57 words, top '
+RULE = ('(programs) a dozen repository programs (hello world, cat, decimal print, hex mul, bit pointers, rotate ...) assembled at w=32/64 and versions '
+        '0-3, run with drawn input under drawn configurations; the reference machine runs the image decoded by the independent '
+        'decoder (thousands of ops per run).  (images) cases = execution-guided images (sparse layouts favoured: page edges, flat-window edge, 2^20..2^57 words, top '
         'of space, lazy zero tails, w=64 words equal to / one flip away from the fill constant) x a drawn list of run '
         'configurations: featured, fast, native default, and native with flat_max_words in {1,2,3,5,7, segment '
         'edges +-1, 2^14+-1, 2^22}, FLIPJUMP_NO_FLAT (paged), last-ops ring length {1,2,3,10,>ops}, speculation '
@@ -47,16 +49,54 @@ def cases(draw):
     return img
 
 
+PROGRAMS = ['print_tests/hello_world', 'print_tests/cat', 'print_tests/hex_print_dec', 'sanity_checks/macro_hex_mul', 'sanity_checks/mathvec',
+            'simple_math_checks/nadd', 'sanity_checks/macro_bit_pointer', 'print_tests/print_as_digit', 'sanity_checks/testbit',
+            'sanity_checks/macro_rotate', 'print_tests/hello_no-stl', 'sanity_checks/macro_hex_input']
+
+
+@st.composite
+def program_cases(draw):
+    d = imagegen.D(draw)
+    name = d.choice(PROGRAMS)
+    inp = draw(st.binary(min_size=0, max_size=12)) if name in ('print_tests/cat', 'sanity_checks/macro_hex_input') else b''
+    cfgs = [{'engine': 'native', 'flat': d.choice([None, 1, 3, 100, 1 << 14, (1 << 14) + 1, 70000]), 'no_flat': d.pct() < 25,
+             'last_len': d.choice([None, None, 2, 10]), 'measure': d.pct() < 15} for _ in range(d.int(1, 3))]
+    cfgs.append({'engine': d.choice(['fast', 'featured']), 'flat': None, 'no_flat': False, 'last_len': d.choice([None, 3]), 'measure': False})
+    return {'kind': 'program', 'program': name, 'w': d.choice([64, 32]), 'version': d.int(0, 3), 'input': list(inp), 'configs': cfgs}
+
+
 def families(tier):
     q = tier == 'quick'
-    return [{'name': 'guided-sparse', 'strategy': cases, 'examples': 1000 if q else 20000}]
+    return [{'name': 'guided-sparse', 'strategy': cases, 'examples': 1000 if q else 20000},
+            {'name': 'assembled-programs', 'strategy': program_cases, 'examples': 12 if q else 400}]
+
+
+def program_image(case):
+    """assemble a repository program with the real assembler; decode the file with the independent decoder"""
+    import contextlib
+    import io
+    import os
+    import flipjump
+    from pathlib import Path
+    from flipjump.fjm.fjm_consts import FJMVersion
+    from fjverif import env, fjmref
+    path = engines.tmpdir() / ('prog_%s_%d_%d.fjm' % (case['program'].replace('/', '_'), case['w'], case['version']))
+    if not os.path.exists(path):
+        with contextlib.redirect_stdout(io.StringIO()):
+            flipjump.assemble([Path(env.REPO) / 'programs' / (case['program'] + '.fj')], path, memory_width=case['w'],
+                              fjm_version=FJMVersion(case['version']), print_time=False, warning_as_errors=False,
+                              use_stl='no-stl' not in case['program'])
+    with open(path, 'rb') as f:
+        img = fjmref.decode(f.read())
+    segs = [[s_, l_, [img.value_at(s_ + i) for i in range(dl)]] for s_, l_, ds, dl in img.segments]
+    return path, segs
 
 
 def words_to_check(case, ref):
     out = set()
     for s, l, d in case['segments']:
-        if l <= 4096:
-            out.update(range(s, s + l))
+        if l <= 4096 or case.get('kind') == 'program':
+            out.update(range(s, s + min(l, 200000)))
         else:
             out.update(range(s, s + min(l, 64)))
             out.update(range(s + l - 8, s + l))
@@ -68,14 +108,23 @@ def words_to_check(case, ref):
 
 def run_case(case):
     w = case['w']
-    segs = case['segments']
-    ref = machine.run(w, segs, case['input_bits'])
+    if case.get('kind') == 'program':
+        try:
+            path, segs = program_image(case)
+        except Exception as e:  # noqa
+            return Discard('program does not assemble here: %s' % type(e).__name__)
+        case = dict(case, segments=segs, layout='program:' + case['program'].split('/')[-1],
+                    input_bits=[(b >> i) & 1 for b in case['input'] for i in range(8)])
+        ref = machine.run(w, segs, case['input_bits'], budget=60000)
+    else:
+        segs = case['segments']
+        ref = machine.run(w, segs, case['input_bits'])
+        path = engines.tmpdir() / 'c07.fjm'
+        engines.write_image(path, w, segs, case['version'])
     if ref.cause == machine.BUDGET:
         return Discard('reference budget')
     refm = machine.Machine(w, segs)
     refm.mem = ref.mem
-    path = engines.tmpdir() / 'c07.fjm'
-    engines.write_image(path, w, segs, case['version'])
     check_words = words_to_check(case, ref)
     cl = ['w=%d' % w, 'layout=' + case['layout'], 'cause=' + ref.cause]
     modes = set()
@@ -123,5 +172,7 @@ def run_case(case):
         cl.append('image holds the fill constant')
     if w == 64 and any(v == imagegen.MAGIC for wa, v in ref.mem.items()):
         cl.append('final memory holds the fill constant')
+    if ref.ops >= 1000:
+        cl.append('ops>=1000')
     nt = len(modes) >= 2 and ref.ops >= 4
     return Ok(cl, nt)
